@@ -23,6 +23,7 @@ def reactionClass (b : String) : Option (Option String) :=   -- some none: succe
   else if b = "M" then some (some "missinghost")
   else if b = "A" then some (some "application")
   else if b = "U" then some (some "application")
+  else if b = "X" then some (some "failedrc:5012")   -- the first CEA of the segment decides: it fails
   else none
 
 /-- `smclient cea rc=.. host=.. realm=.. apps=.. => <class> [meta] msg=<hex>` -/
@@ -103,7 +104,8 @@ def judgeDial (d : DictRt) (R cfgK wf : Nat) (behTok postTok : String) (la : Lis
     match implCer.splitOn ")[" with
     | [h, _] => h ++ ")" ++ showAVPs ((decodeAVPs (dfn.avpType 0) ((encL cerAVPs).length + 1) (encL cerAVPs)) |> fun r => match r with | .ok as => as | _ => cerAVPs)
     | _ => "?"
-  let modelOut := s!"out={outClass} cers={sEnd.cers} same=1 gap={gap} closed={closed} pre=0 post={postOut} cer={cerModel}"
+  let lateOut := if outClass = "ok" then "-" else "0"
+  let modelOut := s!"out={outClass} cers={sEnd.cers} same=1 gap={gap} closed={closed} pre=0 post={postOut} late={lateOut} cer={cerModel}"
   Id.run do
     let mut fails : List String := []
     let iOut := (kv impl "out").getD ""
@@ -112,6 +114,7 @@ def judgeDial (d : DictRt) (R cfgK wf : Nat) (behTok postTok : String) (la : Lis
     let iPost := (kv impl "post").getD "-"
     if impl.headD "" = "hang" then fails := fails ++ ["C12:dial-never-returns"]
     if (kvNat impl "pre").getD 0 > 0 then fails := fails ++ ["C10:application-handler-ran-before-handshake"]
+    if (kvNat impl "late").getD 0 > 0 then fails := fails ++ ["C10:application-handler-ran-after-failed-handshake"]
     if iCers > R + 1 then fails := fails ++ ["C12:more-cers-than-budget"]
     if (kv impl "same").getD "1" ≠ "1" then fails := fails ++ ["C12:retransmitted-cer-differs"]
     if (kv impl "gap").getD "na" = "short" then fails := fails ++ ["C12:retransmission-before-interval"]
